@@ -1,6 +1,7 @@
 """C04 — absolute and relative views of a Sequence never diverge under any history."""
 import gens as G
 import histories as H
+import h4seq_util as U
 import pyimpl as P
 from oracle_util import *  # noqa
 from protocol import from_real
@@ -61,7 +62,10 @@ CLAUSES = [
      ["SCoda.C04e.genExec2_isSome", "SCoda.C04e.genExec_isSome", "SCoda.C04e.hasGen_false_iff", "SCoda.C04e.genExec2_eq", "SCoda.C04e.genExec2_total_partial", "SCoda.C04e.genExec_total_statement_false", "SCoda.C04e.genExec2_total_statement_false", "SCoda.C04e.genRunStrict_eq", "SCoda.C04e.genRunStrict_none", "SCoda.C04e.genRunStrict_eq_none", "SCoda.C04e.genRun_uses_gen", "SCoda.C04e.history_inv_strict", "SCoda.C04e.history_readable_strict", "SCoda.C04e.views_agree_after_strict", "SCoda.C04e.history_readable_illegal_strict", "SCoda.C04e.pairings_gen_state"]),
 ]
 RULE = ("random histories (<=12 ops quick, <=40 thorough) over the full public alphabet (mutators, both overwrites, edits while "
-        "iterating either view, copy, refresh, reads in any order) from each of the three freshness states, driven through real "
+        "iterating either view incl. in-order time edits, copy (the original left behind is kept and re-read at the end), refresh, reads in any order, the "
+        "read-only public calls equals / == / is_empty / to_midi_track / durations / get_message_times_of_type / both pairing calls / channel queries); after "
+        "EVERY step the history prefix is replayed on a second object whose two views are read directly (never through copy()) and compared with each other "
+        "and with a harness-side prediction of the operation's effect; split pieces are read too; from each of the three freshness states, driven through real "
         "Sequence objects and the Lean wrapper machine; plus the complete table op x freshness state; "
         "non-trivial = history with >= 3 mutators and sequence with >= 1 note")
 ASSUMPTIONS = ["model: Seq machine (Model/Wrapper.lean) instantiated with the modelled functions, compared step by step",
@@ -70,68 +74,125 @@ MUTATORS = {"editAbsPeek", "editRelPeek", "editAbsFirst", "editRelFirst", "norma
             "editAbs", "editRel", "overwriteAbs", "overwriteRel", "merge", "concat", "addAbs", "addRel"}
 
 
-def views_agree(s):
-    """compare both views of a *copy* (so that the history is not perturbed by the reads)"""
-    c = s.copy()
-    a = [from_real(m) for m in c.abs._messages]
-    r = [from_real(m) for m in c.rel._messages]
-    ta, da = abs_timed(a)
-    tr, dr = rel_timed(r)
-    strip = lambda lst: sorted((t,) + tuple(-1 if x is None else x for x in (m[0], m[1]) + tuple(m[3:])) for t, m in lst)  # noqa
-    fails = []
-    if strip(ta) != strip(tr):
-        fails.append(("diverge", f"views differ: abs {strip(ta)[:6]} rel {strip(tr)[:6]}"))
-    if (da if a else 0) != dr:
-        fails.append(("duration", f"abs duration {da}, rel duration {dr}"))
-    return fails
+def views_agree(s, order="abs-first"):
+    """both views of the object ITSELF, read through its public properties (no copy(): a copy would hide whatever copy() loses or shares).
+    Reading refreshes the stale view, so callers use it on an object whose history ends here (o_history replays the history prefix on a
+    second, identically built object for every step)."""
+    a, r = U.read_direct(s, order)
+    return U.views_disagree(a, r)
+
+
+def _build(init, start):
+    s = P.make_seq(init)
+    if start == "both":
+        s.refresh()
+    return s
+
+
+def _replay(init, start, ops):
+    """a fresh object with the history `ops` run on it.  Returns (sequence, originals kept at every `copy`, pieces of the last split,
+    (index, exception) of the LAST op if it raised else None).  Earlier ops that raise are passed over exactly as in the real history."""
+    s = _build(init, start)
+    kept, pieces, last_err = [], None, None
+    for i, op in enumerate(ops):
+        pieces, last_err = None, None
+        if op[0] == "copy":
+            kept.append(s)
+        try:
+            s, _, pieces = U.seq_step(s, op)
+        except Exception as e:
+            last_err = (i, e)
+    return s, kept, pieces, last_err
 
 
 def o_history(inp):
     init = (inp["init"][0], [tuple(m) for m in inp["init"][1]])
-    ops = [tuple(tuple(x) if isinstance(x, list) and x and not isinstance(x[0], list) and len(x) == 10 and False else x for x in op) for op in inp["ops"]]
-    s = P.make_seq(init)
-    fails = []
-    # start state variants: make only-abs / only-rel / both fresh
+    ops = [_norm_op(tuple(op)) for op in inp["ops"]]
     st = inp.get("start", "as-built")
-    if st == "both":
-        s.refresh()
-    # "converting loses no event and no duration": what was put in is what both views show, every field included
-    # (a payload value 0 is a legal control / program number)
-    if init[0] in ("abs", "rel"):
-        put, dput = (abs_timed if init[0] == "abs" else rel_timed)(init[1])
-        strip = lambda lst: sorted((t,) + tuple(-1 if x is None else x for x in (m[0], m[1]) + tuple(m[3:])) for t, m in lst)  # noqa
+    # "converting loses no event and no duration": what was put in is what both views show, every field included (a payload value 0 is a
+    # legal control / program number).  Read off two freshly built objects' own views, one in each order (not through copy()).
+    prev = None
+    for order in ("abs-first", "rel-first"):
         try:
-            c = s.copy()
-            ga, da = abs_timed([from_real(m) for m in c.abs._messages])
-            gr, dr = rel_timed([from_real(m) for m in c.rel._messages])
+            a0, r0 = U.read_direct(_build(init, st), order)
         except Exception as e:
             return [("unreadable", f"reading the freshly built sequence raised {type(e).__name__}: {e}")]
-        for nm, got in (("absolute", ga), ("relative", gr)):
-            if strip(got) != strip(put):
-                lost = [x for x in strip(put) if x not in strip(got)]
-                return [("lossless", f"the {nm} view of the freshly built sequence does not show the events put in: missing/changed {lost[:4]}")]
-        if dr != dput and init[1]:
-            return [("lossless", f"duration put in {dput}, relative view shows {dr}")]
+        if init[0] in ("abs", "rel"):
+            put = U.content_abs(init[1]) if init[0] == "abs" else U.content_rel(init[1])
+            for nm, got in (("absolute", U.content_abs(a0)), ("relative", U.content_rel(r0))):
+                if got[0] != put[0]:
+                    lost = [x for x in put[0] if x not in got[0]]
+                    return [("lossless", f"the {nm} view of the freshly built sequence (read {order}) does not show the events put in: missing/changed {lost[:4]}")]
+                if got[1] != put[1] and init[1]:
+                    return [("lossless", f"duration put in {put[1]}, the {nm} view (read {order}) shows {got[1]}")]
+        f = U.views_disagree(a0, r0)
+        if f:
+            return [(c, f"freshly built: {d}") for c, d in f]
+        prev = (a0, r0)
+    snaps = [U.content_rel(prev[1])]         # snaps[j]: the content before op j
+    copy_at = [j for j, op in enumerate(ops) if op[0] == "copy"]
     for i, op in enumerate(ops):
-        op = _norm_op(op)
-        try:
-            s, _ = P._seq_step(s, op)
-        except Exception as e:
+        order = "abs-first" if (i + len(ops)) % 2 == 0 else "rel-first"
+        s, kept, pieces, err = _replay(init, st, ops[:i + 1])
+        if err is not None:
+            e = err[1]
             name = type(e).__name__
             if name == "SequenceException" and "stale" in str(e):
-                return fails + [("unreadable", f"op {i} {op[0]} raised: {e}")]
-            if name in ("SequenceException",):
-                continue      # e.g. scale with a non-integer factor is not generated; other SequenceExceptions are op-level errors
-            if name in ("IndexError", "KeyError", "ValueError", "TypeError", "AttributeError"):
-                return fails + [("op-raises", f"op {i} {op[0]} raised {name}: {e}")]
-            raise
+                return [("unreadable", f"op {i} {op[0]} raised: {e}")]
+            if op[0] in U.READ_ONLY:
+                pass        # what a read-only query answers (or that it refuses an empty / multi-channel sequence) is not C04's business; the state after it is
+            elif name == "SequenceException":
+                pass        # an op-level refusal; the object must still be readable afterwards (checked below)
+            elif name in ("IndexError", "KeyError", "ValueError", "TypeError", "AttributeError"):
+                return [("op-raises", f"op {i} {op[0]} raised {name}: {e}")]
+            else:
+                raise e
         try:
-            f = views_agree(s)
+            a, r = U.read_direct(s, order)
         except Exception as e:
-            return fails + [("unreadable", f"after op {i} {op[0]}: reading raised {type(e).__name__}: {e}")]
+            return [("unreadable", f"after op {i} {op[0]}: reading ({order}) raised {type(e).__name__}: {e}")]
+        f = U.views_disagree(a, r)
         if f:
-            return fails + [(c, f"after op {i} {op[0]}: {d}") for c, d in f]
-    return fails
+            return [(c, f"after op {i} {op[0]} (read {order}): {d}") for c, d in f]
+        # "the effect of every operation is visible through both views": for the operations with a harness-side model, both views show it
+        exp = U.effect(op, prev[0], prev[1]) if err is None else (U.content_rel(prev[1]) if op[0] in U.READ_ONLY else None)
+        if exp is not None:
+            got = U.content_rel(r)
+            if got[0] != exp[0]:
+                diff = [x for x in exp[0] if x not in got[0]][:3] + [x for x in got[0] if x not in exp[0]][:3]
+                return [("effect", f"after op {i} {op}: the views do not show the operation's effect on the content before it: differing events {diff}")]
+            if got[1] != exp[1]:
+                return [("effect", f"after op {i} {op}: duration {got[1]}, expected {exp[1]}")]
+        # pieces of a split are sequences too: their views agree
+        for pi, pc in enumerate(pieces or []):
+            try:
+                fp = views_agree(pc, order)
+            except Exception as e:
+                return [("unreadable", f"split piece {pi} after op {i}: reading raised {type(e).__name__}: {e}")]
+            if fp:
+                return [("piece-" + fp[0][0], f"split piece {pi} after op {i}: {fp[0][1]}")]
+        # a copy taken during the history leaves an original behind: whatever happens to the copy afterwards, the original's views agree
+        # and still show what they showed when the copy was taken (checked at the end of each prefix; reading ends that object's life)
+        if i == len(ops) - 1:
+            for ki, k in enumerate(kept):
+                try:
+                    fk = views_agree(k, order)
+                except Exception as e:
+                    return [("unreadable", f"the original left behind by copy #{ki}: reading raised {type(e).__name__}: {e}")]
+                if fk:
+                    return [("original-" + fk[0][0], f"the original left behind by copy #{ki} after the history continued on the copy: {fk[0][1]}")]
+                if ki < len(copy_at) and copy_at[ki] < len(snaps) and U.content_rel([from_real(m) for m in k.rel._messages]) != snaps[copy_at[ki]]:
+                    return [("original-changed", f"the original left behind by copy #{ki} no longer shows the content it had when it was copied")]
+            # and a copy of the final state shows what the object itself shows
+            try:
+                ca, cr = U.read_direct(_replay(init, st, ops)[0].copy(), order)
+            except Exception as e:
+                return [("unreadable", f"copy of the final state: reading raised {type(e).__name__}: {e}")]
+            if U.content_abs(ca) != U.content_abs(a) or U.content_rel(cr) != U.content_rel(r):
+                return [("copy-differs", "a copy of the final state does not show the content the object itself shows")]
+        prev = (a, r)
+        snaps.append(U.content_rel(r))
+    return []
 
 
 def _norm_op(op):
@@ -154,7 +215,7 @@ def generate(ctx):
     rng = ctx.rng
     for i in range(ctx.n(150, 3000)):
         init = H.gen_init(rng)
-        ops = H.gen_history(rng, rng.randint(1, 12 if not ctx.thorough else 40))
+        ops = H.gen_history(rng, rng.randint(1, 12 if not ctx.thorough else 40), ext=U.gen_ext_op)
         start = rng.choice(["as-built", "both"])
         nm = sum(1 for o in ops if o[0] in MUTATORS)
         has_note = any(m[0] == 7 for m in init[1])
@@ -164,7 +225,9 @@ def generate(ctx):
         ctx.count("init:" + init[0])
         ctx.check("history", {"init": init, "ops": ops, "start": start})
         pre = [("refresh",)] if start == "both" else []
-        ctx.corr("seq", P.op_seq(init, pre + ops + [("flags",), ("readAbs",), ("readRel",)]))
+        # the Lean driver does not know the time edits and the read-only calls: it gets the history with each read-only call replaced by the
+        # driver op with the same effect on the wrapper state and without the time edits (those are judged by the oracle only)
+        ctx.corr("seq", P.op_seq(init, pre + U.driver_history(ops) + [("flags",), ("readAbs",), ("readRel",)]))
         ctx.sample({"init": [init[0], init[1][:4]], "ops": [o[0] for o in ops]})
     # complete table: every op from each freshness state on a small fixed sequence
     base = G.notes_to_abs([(5, 60, 0, 24, 64), (5, 62, 24, 12, 80)], cap=48)      # channel 5: every set_channel(0..3) is a real change
@@ -182,6 +245,18 @@ def generate(ctx):
             ctx.corr("seq-table", P.op_seq(init, pre + [("flags",), op, ("flags",), ("readAbs",), ("readRel",)]))
             ctx.check("history", {"init": init, "ops": pre + [op], "start": "as-built"})
     ctx.count("table-ops", len(table))
+    # the same for the extended alphabet (audit O11): every time edit kind through either iterator and every read-only public call
+    seen, ext_table = set(), []
+    for _ in range(600):
+        op = U.gen_ext_op(rng2, oa)
+        k = (op[0], op[1] if op[0].startswith("edit") else (op[1] is None if op[0] in ("equals", "eq") else None))
+        if k not in seen:
+            seen.add(k); ext_table.append(op)
+    for op in ext_table:
+        for init, pre in ((("abs", base), []), (("rel", G.abs_to_rel(base)), []), (("abs", base), [("refresh",)]), (("new", []), [])):
+            ctx.corr("seq-table", P.op_seq(init, U.driver_history(pre + [("flags",), op, ("flags",), ("readAbs",), ("readRel",)])))
+            ctx.check("history", {"init": init, "ops": pre + [op, ("normalise",), op], "start": "as-built"})
+    ctx.count("table-ops-extended", len(ext_table))
     # exhaustive small scope of the two conversions: every relative list of <= 3 (quick) / <= 4 (thorough) messages,
     # read through the absolute view, and that absolute list read back through the relative view
     for rel in G.enum_rel(4 if ctx.thorough else 3):
